@@ -1,4 +1,5 @@
 import Skc.Lemmas.Kernels
+import Skc.Lemmas.GaussCovIneq
 
 /-! # C06 — scores derived from costs equal their defining cost differences
 
@@ -6,8 +7,9 @@ Closed-form level (see C01 for how the closed forms are tied to the generated co
 `Skc/L1/Cusum.lean`, `Skc/L1/L2Cost.lean` restate the identities on the generated definitions).
 The three adapters (`ChangeScore`, `Saving`, `LocalAnomalyScore`) are compositions whose defining
 equations *are* their model; they are tied to the code by exact correspondence with user-defined
-integer costs.  Not proved: the log-det inequalities of the multivariate Gaussian cost (numeric
-check only). -/
+integer costs.  The multivariate Gaussian cost is treated at the level of its definition from the rows
+(`gcovCost`, `gcovFixed` in `Lemmas/GaussCov*.lean`; tied to the code numerically by C01): optimal ≤ fixed and
+the split inequality are proved for positive definite sample covariances — otherwise the code raises. -/
 namespace Skc
 
 /-- **C06**: the squared CUSUM equals the squared-error change score `C(s,e) − C(s,k) − C(k,e)`.
@@ -67,5 +69,47 @@ theorem changeScore_nonneg {γ : Type} [AddCommGroup γ] [LinearOrder γ] [IsOrd
   unfold changeScoreOf
   have : C s e - C s k - C k e = C s e - (C s k + C k e) := by abel
   rw [this]; exact sub_nonneg.2 h
+
+/-! ### Multivariate Gaussian cost (definition from the rows; `x i j` = row `i`, column `j`) -/
+
+/-- **C06, multivariate Gaussian**: the optimal-parameter cost never exceeds the cost at any fixed mean `μ`
+    and positive definite covariance `Sg` — for every dimension, interval and data with a positive definite
+    sample covariance (the code raises its documented error otherwise) -/
+theorem gcov_optim_le_fixed {p : ℕ} (x : ℕ → Fin p → ℝ) (μ : Fin p → ℝ) (Sg : Matrix (Fin p) (Fin p) ℝ)
+    (s e : ℕ) (h : s < e) (hSg : Sg.PosDef) (hS : (covMat x s e).PosDef) :
+    gcovCost x s e ≤ gcovFixed x μ Sg s e :=
+  gcovCost_le_gcovFixed x μ Sg s e h hSg hS
+
+/-- **C06, multivariate Gaussian**: savings are non-negative -/
+theorem gcov_saving_nonneg {p : ℕ} (x : ℕ → Fin p → ℝ) (μ : Fin p → ℝ) (Sg : Matrix (Fin p) (Fin p) ℝ)
+    (s e : ℕ) (h : s < e) (hSg : Sg.PosDef) (hS : (covMat x s e).PosDef) :
+    0 ≤ gcovFixed x μ Sg s e - gcovCost x s e :=
+  sub_nonneg.2 (gcovCost_le_gcovFixed x μ Sg s e h hSg hS)
+
+/-- **C06, multivariate Gaussian**: splitting an interval never increases the optimal-parameter cost, and the
+    derived change score is non-negative -/
+theorem gcov_split_never_increases {p : ℕ} (x : ℕ → Fin p → ℝ) (s k e : ℕ) (h1 : s < k) (h2 : k < e)
+    (hS : (covMat x s e).PosDef) (hS1 : (covMat x s k).PosDef) (hS2 : (covMat x k e).PosDef) :
+    gcovCost x s k + gcovCost x k e ≤ gcovCost x s e ∧ 0 ≤ gcovChange x s k e :=
+  ⟨gcovCost_split_le x s k e h1 h2 hS hS1 hS2, gcovChange_nonneg x s k e h1 h2 hS hS1 hS2⟩
+
+/-- the fixed-parameter cost is additive and, at the sample mean and covariance, equals the optimal one -/
+theorem gcov_fixed_additive_and_at_mle {p : ℕ} (x : ℕ → Fin p → ℝ) (μ : Fin p → ℝ)
+    (Sg : Matrix (Fin p) (Fin p) ℝ) (s k e : ℕ) (h1 : s < k) (h2 : k < e) (hS : (covMat x s e).PosDef) :
+    gcovFixed x μ Sg s k + gcovFixed x μ Sg k e = gcovFixed x μ Sg s e ∧
+    gcovFixed x (meanVec x s e) (covMat x s e) s e = gcovCost x s e :=
+  ⟨gcovFixed_add x μ Sg s k e h1.le h2.le, gcovFixed_at_mle x s e (by omega) hS⟩
+
+/-- non-vacuity: a concrete data set whose sample covariance is positive definite -/
+example : (covMat (p := 1) (fun i _ => (i : ℝ)) 0 2).PosDef := by
+  have h : covMat (p := 1) (fun i _ => (i : ℝ)) 0 2 = Matrix.diagonal (fun _ => (1/4 : ℝ)) := by
+    funext j k
+    have hj : j = 0 := Subsingleton.elim _ _
+    have hk : k = 0 := Subsingleton.elim _ _
+    subst hj hk
+    simp [covMat, meanVec]
+    norm_num
+  rw [h, Matrix.posDef_diagonal_iff]
+  intro _; norm_num
 
 end Skc
